@@ -33,7 +33,15 @@ def run(R, tier, seed, driver_ok):
     for rep in range(reps):
         d = int(rng.randint(2, 6))
         X, y = zoo.blobs(rng, d)
-        quads = X[zoo.quads_from(X, y, rng, n=int(rng.randint(4, 20)))]
+        if rep % 3 == 1:
+            # comparisons that are violated under the prior (the two pairs exchanged) and listed several times with uneven
+            # multiplicities: a comparison listed k times counts k times in the objective and in the search direction
+            qi = zoo.quads_from(X, y, rng, n=int(rng.randint(4, 20)), repeats=False)
+            fl = rng.rand(len(qi)) < 0.5
+            qi[fl] = qi[fl][:, [2, 3, 0, 1]]
+            quads = X[zoo.with_repeats(rng, qi)]
+        else:
+            quads = X[zoo.quads_from(X, y, rng, n=int(rng.randint(4, 20)))]
         if rep % 5 == 4:
             quads = quads[rng.choice(len(quads), size=int(rng.randint(1, 4)), replace=False)]   # one to three comparisons
         nq = len(quads)
